@@ -105,6 +105,7 @@ class C12(core.Check):
         self.dep_codes = None
         self.pool = workload.include_free(workload.corpus(max_bytes=4096))
         self.gen = workload.SchemaGen()
+        core.FREEZE_FACTORIES = True  # an argument that comes back with another default_factory has been modified
         from mappyfile.parser import Parser
         from mappyfile.pprint import PrettyPrinter
         from mappyfile.transformer import MapfileToDict
@@ -251,6 +252,19 @@ class C12(core.Check):
             docs[cid] = good
             e_ = r.random() < 0.5
             pre = [{"op": "load", "doc": x_, "e": e_, "c": True, "p": r.random() < 0.3, "via": "parse"} for x_ in (bid, cid, bid, cid)[: r.choice([2, 4])]]
+            at = r.randint(0, len(ops))
+            ops[at:at] = pre
+            reuse["parser"] = True
+        if k.random() < 0.2:
+            # motif: a document whose INCLUDE file is in a legacy encoding (not valid UTF-8: the load fails), then a
+            # document whose INCLUDE file is UTF-8 with non-ASCII text, through the same Parser
+            aid, bid = f"d{len(docs)}", f"d{len(docs) + 1}"
+            files["/simfs/w/legacy/l1.map"] = {"latin1": 'LAYER\n  NAME "stra\xdfe"\n  TYPE LINE\nEND\n'}
+            files["/simfs/w/utf/l2.map"] = 'LAYER\n  NAME "straße 中文 é" # ü\n  TYPE POINT\nEND\n'
+            docs[aid] = 'MAP\n  NAME "legacy"\n  INCLUDE "legacy/l1.map"\nEND\n'
+            docs[bid] = 'MAP\n  NAME "modern"\n  INCLUDE "utf/l2.map"\nEND\n'
+            c_ = r.random() < 0.5
+            pre = [{"op": "load", "doc": x_, "e": True, "c": c_, "p": False, "via": r.choice(["parse", "load", "parse_file"])} for x_ in (aid, bid, aid, bid)[: r.choice([2, 4])]]
             at = r.randint(0, len(ops))
             ops[at:at] = pre
             reuse["parser"] = True
@@ -406,7 +420,7 @@ class C12(core.Check):
         return case.get("paths", {}).get(did) or f"/simfs/w/{did}.map"
 
     def base_files(self, case):
-        files = dict(case.get("files", {}))
+        files = {p_: (t_["latin1"].encode("latin-1") if isinstance(t_, dict) else t_) for p_, t_ in case.get("files", {}).items()}
         for did, text in case["docs"].items():
             files[self.doc_path(case, did)] = text
         return files
